@@ -27,6 +27,9 @@ RULE = ("per transport (mrp, companion, http, rtsp): every interleaving of 2 req
         "permutation of the responses x an unsolicited message at every position x a timeout of every request at "
         "every position, in two send layouts (all first / staggered); plus 1000 (thorough: 8000) random scripts per transport with up to 5 requests "
         "(duplicates, unknown and not-yet-allocated identifiers, Companion XID burns) from ctx.rng. "
+        "a request whose transmission raises (F: connection.send / transport.write / send processor) at every position "
+        "of the 2-request scripts without device-originated message, randomly elsewhere; "
+        "scripted listeners raise on their k-th call or always (plain, coroutine, bound method; the witness too); "
         "MRP listener sets vary per script (the unfiltered witness on every type plus up to 5 subscriptions: several "
         "listeners per type, the same function / bound method / coroutine subscribed repeatedly for one type with "
         "disjoint filters, the same callable on several types); plus 400 (thorough: 4000) bare MessageDispatcher cases "
@@ -61,6 +64,7 @@ HTTP_WITNESS = "s,t0,s,rn:0"           # = PyatvModel.Props.C03.C03_http_counter
 TRANSPORTS = ["mrp", "companion", "http", "rtsp"]
 SETTLE = 50
 CUR = contextvars.ContextVar("c03_request", default=None)
+FAILED = 1000           # caller ids of requests whose transmission is made to raise
 
 
 # ------------------------------------------------------------------------------ scripts
@@ -74,8 +78,8 @@ def tok(e):
         return "s"
     if e[0] == "S":
         return "S%d" % e[1]
-    if e[0] == "b":
-        return "b"
+    if e[0] in ("b", "F"):
+        return e[0]
     if e[0] == "t":
         return "t%d" % e[1]
     return "%s%s:%d" % (e[0], "n" if e[1] is None else e[1], e[2])
@@ -84,8 +88,8 @@ def tok(e):
 def untok(t):
     if t == "s":
         return ("s",)
-    if t == "b":
-        return ("b",)
+    if t in ("b", "F"):
+        return (t,)
     if t[0] == "S":
         return ("S", int(t[1:]))
     if t[0] == "t":
@@ -131,7 +135,7 @@ def script_keys(base, events):
         if e[0] in SENDS:
             keys.append(nkey)
             nkey += 1
-        elif e[0] == "b":
+        elif e[0] in ("b", "F"):   # a failed send consumes its identifier too (uuid / XID / CSeq)
             nkey += 1
     return keys
 
@@ -204,6 +208,10 @@ def interleavings2(transport, base):
                         else:
                             evs.append((uv[0], uv[1], 100))
                     out.append(evs)
+                    if uv is None and not rs:
+                        # a request whose transmission raises, at every position
+                        for i in range(len(evs) + 1):
+                            out.append(evs[:i] + [("F",)] + evs[i:])
     return out
 
 
@@ -249,6 +257,8 @@ def structured(transport, base, n, rng):
                         evs.append(tail[j])
                 if transport == "http" and not http_script_ok(evs):
                     continue
+                if rng.chance(0.25):
+                    evs.insert(rng.randint(0, len(evs)), ("F",))
                 out.append(evs)
     return out
 
@@ -297,6 +307,7 @@ def random_script(transport, base, rng, nmax=5, maxlen=18):
             choices += ["t"] * 2
         if transport == "companion":
             choices += ["b"]
+        choices += ["F"]
         if len(keys) == n and len(answered) == n and rng.chance(0.5):
             break
         c = rng.choice(choices)
@@ -310,6 +321,9 @@ def random_script(transport, base, rng, nmax=5, maxlen=18):
         elif c == "b":
             nkey += 1
             evs.append(("b",))
+        elif c == "F":
+            nkey += 1
+            evs.append(("F",))
         elif c == "r":
             if transport == "http":
                 evs.append(("r", None, http_ans))
@@ -363,8 +377,20 @@ NTYPES = 3
 NCALLABLES = 5
 
 
+def split_subs(text):
+    """`subscriptions|raising` -> (subscriptions text, {callable: k | "a"}): callable lid raises on
+    its k-th call (counted over the whole script) or on every call"""
+    main, _, rz = (text or "-").partition("|")
+    raising = {}
+    for t in ([] if not rz else rz.split(",")):
+        lid, k = t.split(":")
+        raising[int(lid)] = "a" if k == "a" else int(k)
+    return main, raising
+
+
 def parse_subs(text):
     out = []
+    text = split_subs(text)[0]
     for t in ([] if text in ("", "-") else text.split(",")):
         ty, lid, f = t.split(".")
         out.append((int(ty), int(lid), f))
@@ -406,13 +432,37 @@ def random_subs(rng, witness=True):
             res.add(r)
             subs.append((ty, lid, "m3r%d" % r))
     rng.shuffle(subs)
-    return ",".join("%d.%d.%s" % x for x in subs) or "-"
+    text = ",".join("%d.%d.%s" % x for x in subs) or "-"
+    if subs and rng.chance(0.5):
+        # scripted listeners that raise: on the k-th call or always
+        lids = sorted(set(l for _t, l, _f in subs))
+        rz = ["%d:%s" % (l, rng.choice(["1", "2", "a"])) for l in lids if rng.chance(0.5)]
+        if rz:
+            text += "|" + ",".join(rz)
+    return text
+
+
+class ListenerFault(RuntimeError):
+    pass
+
+
+class SendFault(OSError):
+    pass
 
 
 class Callables:
     """the pool of listener callables; every call is reported as record(lid, message)"""
 
-    def __init__(self, record):
+    def __init__(self, report, raising=None):
+        raising = raising or {}
+        count = {}
+
+        def record(lid, message):
+            report(lid, message)          # the call is observed, then the listener may raise
+            count[lid] = count.get(lid, 0) + 1
+            if raising.get(lid) in ("a", count[lid]):
+                raise ListenerFault("listener %d raises on call %d" % (lid, count[lid]))
+
         def plain0(message):
             record(0, message)
 
@@ -446,7 +496,7 @@ async def run_disp(subs_text, msgs_text):
 
     calls = []
     cur = []
-    cs = Callables(lambda lid, message: cur.append(lid))
+    cs = Callables(lambda lid, message: cur.append(lid), split_subs(subs_text)[1])
     d = MessageDispatcher()
     for ty, lid, f in parse_subs(subs_text):
         if f == "a":
@@ -486,6 +536,8 @@ class MrpAdapter:
         from pyatv.protocols.mrp import protocol as mp
 
         self.obs, self.base, self.keys = obs, base, []
+        self.fail_next = 0
+        self.nsent = 0
         self.messages, self.protobuf = messages, protobuf
         self.objects, self.type_of = {}, {}
         adapter = self
@@ -495,7 +547,11 @@ class MrpAdapter:
 
             def send(self, message):
                 adapter.keys.append(message.identifier)
-                adapter.obs.add("snt", len(adapter.keys) - 1, adapter.mkey(message.identifier))
+                if adapter.fail_next:
+                    adapter.fail_next = 0
+                    raise SendFault("connection.send raises")
+                adapter.obs.add("snt", adapter.nsent, adapter.mkey(message.identifier))
+                adapter.nsent += 1
 
             def close(self):
                 adapter.obs.add("closed")
@@ -507,8 +563,9 @@ class MrpAdapter:
         self.prot._state = mp.ProtocolState.READY
         self.types = [protobuf.GENERIC_MESSAGE, protobuf.SET_STATE_MESSAGE, protobuf.VOLUME_DID_CHANGE_MESSAGE]
         self.subs = parse_subs(subs)
+        self.subs_text = subs
         self.callables = Callables(lambda lid, message: adapter.obs.add(
-            "dsp", lid, adapter.mkey(message.identifier), adapter.payload(message)))
+            "dsp", lid, adapter.mkey(message.identifier), adapter.payload(message)), split_subs(subs)[1])
         for ty, lid, f in self.subs:
             if f == "a":
                 self.prot.listen_to(self.types[ty], self.callables.get(lid))
@@ -565,6 +622,7 @@ class CompanionAdapter:
         from pyatv.support import opack
 
         self.obs, self.base = obs, base
+        self.fail_next = 0
         self.opack, self.FrameType = opack, FrameType
         self.nsent = 0
         self.objects = {}
@@ -576,6 +634,9 @@ class CompanionAdapter:
 
             def send(self, frame_type, data):
                 d, _ = opack.unpack(data)
+                if d.get("_i") == "req" and adapter.fail_next:
+                    adapter.fail_next = 0
+                    raise SendFault("connection.send raises")
                 if d.get("_i") == "req":
                     adapter.obs.add("snt", adapter.nsent, d.get("_x"))
                     adapter.nsent += 1
@@ -639,10 +700,20 @@ class HttpAdapter:
 
         self.obs = obs
         self.nsent = 0
-        self.conn = HttpConnection()
+        self.fail_next = 0
+        self.conn = HttpConnection(send_processor=self.processor)
         self.conn.transport = FakeTransport(self.on_write)
 
+    def processor(self, data):
+        if self.fail_next == 2:
+            self.fail_next = 0
+            raise SendFault("send processor raises")
+        return data
+
     def on_write(self, data):
+        if self.fail_next == 1:
+            self.fail_next = 0
+            raise SendFault("transport.write raises")
         self.obs.add("snt", self.nsent, self.nsent)
         self.nsent += 1
 
@@ -692,7 +763,8 @@ class RtspAdapter:
             def timeout(_delay):
                 return async_timeout.timeout(remaining())
 
-        self.conn = Conn()
+        self.fail_next = 0
+        self.conn = Conn(send_processor=self.processor)
         self.conn.transport = FakeTransport(self.on_write)
         self.conn._local_ip = "127.0.0.1"
         self.conn._remote_ip = "127.0.0.2"
@@ -703,7 +775,16 @@ class RtspAdapter:
     def restore(self):
         self.rtsp_mod.async_timeout = self.orig_async_timeout
 
+    def processor(self, data):
+        if self.fail_next == 2:
+            self.fail_next = 0
+            raise SendFault("send processor raises")
+        return data
+
     def on_write(self, data):
+        if self.fail_next == 1:
+            self.fail_next = 0
+            raise SendFault("transport.write raises")
         cseq = -1
         for line in data.split(b"\r\n\r\n")[0].split(b"\r\n")[1:]:
             if line.lower().startswith(b"cseq:"):
@@ -763,6 +844,8 @@ async def run_script(transport, base, events, subs=DEFAULT_SUBS):
     nsend = sum(1 for e in events if e[0] in SENDS)
     for r in range(nsend):
         deadlines.setdefault(r, t0 + 1.0e7)
+    for i in range(sum(1 for e in events if e[0] == "F")):
+        deadlines[FAILED + i] = t0 + 1.0e7
 
     obs.begin()
     if transport == "mrp":
@@ -787,13 +870,30 @@ async def run_script(transport, base, events, subs=DEFAULT_SUBS):
         except Exception as ex:  # observation, never a crash
             obs.add("err", r, type(ex).__name__)
 
+    async def failing_caller(fid):
+        """a caller whose transmission raises; it is not one of the numbered requests"""
+        CUR.set(fid)
+        try:
+            k, v = await ad.request(fid, 1.0e7, None)
+            obs.add("fdlv", k, v)
+        except asyncio.CancelledError:
+            raise
+        except SendFault:
+            obs.add("serr")
+        except Exception as ex:
+            obs.add("ferr", type(ex).__name__)
+
     tasks = []
+    ftasks = []
     ti = 0
     try:
         for e in events:
             obs.begin()
             try:
-                if e[0] in SENDS:
+                if e[0] == "F":
+                    ad.fail_next = 1 + len(ftasks) % 2     # alternate the place of the fault
+                    ftasks.append(asyncio.ensure_future(failing_caller(FAILED + len(ftasks))))
+                elif e[0] in SENDS:
                     obj = e[1] if e[0] == "S" and e[1] < len(tasks) else None
                     tasks.append(asyncio.ensure_future(caller(len(tasks), obj)))
                 elif e[0] == "b":
@@ -807,12 +907,13 @@ async def run_script(transport, base, events, subs=DEFAULT_SUBS):
             except Exception as ex:
                 obs.add("raised", type(ex).__name__)
             await settle()
+            ad.fail_next = 0
         obs.begin()  # anything after the last settle goes to an extra (unchecked) slot
     finally:
-        for t in tasks:
+        for t in tasks + ftasks:
             t.cancel()
-        if tasks:
-            await asyncio.gather(*tasks, return_exceptions=True)
+        if tasks or ftasks:
+            await asyncio.gather(*(tasks + ftasks), return_exceptions=True)
         await settle()
         if hasattr(ad, "restore"):
             ad.restore()
@@ -833,6 +934,8 @@ def canon_step(ad, event, step):
             out.append("tmo:%d" % t[1])
         elif t[0] == "err":
             out.append("flt:%d" % t[1] if t[2] == "KeyError" else "err:%d:%s" % (t[1], t[2]))
+        elif t[0] == "serr":
+            out.append("ser")
         elif t[0] == "dsp":
             dsp.setdefault((t[2], t[3]), []).append(t[1])
         else:
@@ -906,6 +1009,8 @@ def oracle(transport, base, events, steps, ad, perm_script):
         if e[0] in MSG:
             recv_at[e[2]] = (si, e[0], e[1])
         for t in step:
+            if t[0] == "fdlv":
+                add("misdelivery", "the caller whose send failed returned message %s (event %d)" % (t[2], si))
             if t[0] == "err" or t[0] == "raised":
                 add("unexpected-error", "event %d (%s): %s" % (si, tok(e), t))
             if t[0] in ("dlv", "tmo", "err"):
@@ -1037,6 +1142,8 @@ def execute(cases):
     results = []
 
     async def batch(chunk):
+        # exceptions of listeners end here (call_soon callbacks); they are observations, not noise
+        asyncio.get_event_loop().set_exception_handler(lambda loop, context: None)
         for transport, base, evs, subs in chunk:
             if transport == "disp":
                 try:
@@ -1074,7 +1181,7 @@ def disp_oracle(subs_text, msgs_text, calls):
 def run(ctx, only=None):
     cases = only if only is not None else gen_cases(ctx)
     results = execute(cases)
-    lines = [("disp %s %s" % (r[4], r[2])) if r[0] == "disp" else model_line(r[0], r[1], r[2]) for r in results]
+    lines = [("disp %s %s" % (split_subs(r[4])[0], r[2])) if r[0] == "disp" else model_line(r[0], r[1], r[2]) for r in results]
     answers = ctx.lean(lines)
     reported = {}
 
@@ -1107,7 +1214,7 @@ def run(ctx, only=None):
         script = show(evs)
         case = {"transport": transport, "base": base, "script": script}
         if transport == "mrp" and ad is not None:
-            case["subs"] = ",".join("%d.%d.%s" % x for x in ad.subs)
+            case["subs"] = ad.subs_text
         nreq = sum(1 for e in evs if e[0] in SENDS)
         ctx.note("transport:" + transport)
         ctx.note("requests:%d" % nreq)
@@ -1161,7 +1268,10 @@ def shrink(ctx, failure):
     disp = case["transport"] == "disp"
 
     def items(c, field):
-        if field == "subs" or disp:
+        if field == "subs":
+            main = split_subs(c[field])[0]
+            return [] if main in ("", "-") else main.split(",")
+        if disp:
             return [] if c[field] in ("", "-") else c[field].split(",")
         return [tok(e) for e in parse(c[field])]
 
@@ -1177,6 +1287,8 @@ def shrink(ctx, failure):
                 cand = its[:i] + its[i + 1:]
                 c2 = dict(case)
                 c2[field] = ",".join(cand) or "-"
+                if field == "subs" and "|" in case["subs"]:
+                    c2[field] += "|" + case["subs"].split("|", 1)[1]
                 if case["transport"] == "http" and not http_script_ok(parse(c2["script"])):
                     continue      # keep the device discipline the oracle's rule is stated for
                 probs = [p for p in _rerun(c2) if p[0] == failure["sig"]]
